@@ -5,13 +5,13 @@ set -euo pipefail
 REPO=${BEZIER_REPO:-/repo}
 VERIF=$(cd "$(dirname "$0")/.." && pwd)
 PYBIN=/venv/bin/python
-key=$(cat "$REPO"/src/fortran/*.f90 "$REPO"/src/fortran/CMakeLists.txt "$REPO"/src/python/bezier/_speedup.c | sha256sum | cut -c1-16)
+key=$( (echo nonative; cat "$REPO"/src/fortran/*.f90 "$REPO"/src/fortran/CMakeLists.txt "$REPO"/src/python/bezier/_speedup.c) | sha256sum | cut -c1-16)
 root="$VERIF/build/speedup-$key"
 so="$root/pkg/bezier/_speedup.cpython-312-x86_64-linux-gnu.so"
 if [ ! -f "$so" ]; then
   rm -rf "$root"; mkdir -p "$root/pkg/bezier" "$root/cm"
   (
-    cmake -DCMAKE_INSTALL_PREFIX="$root/inst" -DCMAKE_BUILD_TYPE=Release -S "$REPO/src/fortran" -B "$root/cm" >"$root/build.log" 2>&1
+    cmake -DCMAKE_INSTALL_PREFIX="$root/inst" -DCMAKE_BUILD_TYPE=Release -DTARGET_NATIVE_ARCH:BOOL=OFF -S "$REPO/src/fortran" -B "$root/cm" >"$root/build.log" 2>&1
     make -C "$root/cm" -j16 install >>"$root/build.log" 2>&1
     libdir=$(dirname "$(find "$root/inst" -name 'libbezier*' | head -1)")
     npinc=$($PYBIN -c 'import numpy; print(numpy.get_include())')
